@@ -234,7 +234,7 @@ class Sim:
         def encode_impl(m):
             try:
                 return orig_encode(m)
-            except (ValueError, NotImplementedError):
+            except Exception:      # whatever the encoder raises: the message cannot be sent as such
                 sim.emit(f"sendBad {getattr(m, '_sid', 0)}")
                 raise
         c._encode_impl = encode_impl
